@@ -196,6 +196,13 @@ def main(tier, seed, replay=None):
 
     nvm = vm_subsample(run, "depfile", rng, sub_lines, sub_model,
                        lambda l: "depfile_parse %s" % coq_list(unhexs(l)), parse_vm)
+    if not replay:
+        import taskleg
+        n2, out_ = build_n2_binary()
+        if n2 is None:
+            run.tie("n2 build", out_[-1000:])
+        else:
+            taskleg.depfile_leg(run, n2)
     run.coverage.update(info)
     run.coverage.update({
         "checker_cmd": "make -C coq theories/Props/C15.vo && coqc Gate_C15.v (Check pinned statements + Print Assumptions)",
